@@ -14,6 +14,9 @@ import (
 type op struct {
 	kind byte    // g: get error, n: not found, u: update error, c: update conflict (store := poke), o: ok
 	poke []Entry // for c
+	// live drift: another writer stored `pre` between the previous attempt and the Get of this one
+	hasPre bool
+	pre    []Entry
 }
 
 // fakeAPI is the scripted API client: controller.Getter + status.K8sUpdater (+ client.Client for
@@ -41,6 +44,9 @@ func (f *fakeAPI) Get(_ context.Context, _ client.ObjectKey, obj client.Object, 
 		f.cur = f.sched[f.pos]
 	}
 	f.pos++
+	if f.cur.hasPre {
+		f.k.setStatus(f.store, cloneStatus(f.cur.pre))
+	}
 	switch f.cur.kind {
 	case 'g':
 		f.calls = append(f.calls, "g0")
